@@ -180,6 +180,14 @@ func (g *gen) wrap(nest int) plgen.Stmt {
 		g.loopDepth++
 		body := g.block(nest+1, 3)
 		g.loopDepth--
+		if g.r.Intn(6) == 0 {
+			// the post clause is a call with an effect; the counter is advanced first thing in the body.
+			// The post clause belongs to the iteration: it runs after a completed body (also after
+			// continue), not after break, exit(), cancellation or an error
+			g.tag++
+			body = append([]plgen.Stmt{{K: "raw", Op: "incv", V: v, Arg: fmt.Sprintf("%s = %s + 1", v, v)}}, body...)
+			return plgen.Stmt{K: "for", Op: "postobs", Arg2: fmt.Sprint(g.tag), N: n, V: v, Init: v + " = 0", Cond: fmt.Sprintf("%s < %d", v, n), Post: fmt.Sprintf("obs(%d)", g.tag), Body: body}
+		}
 		return plgen.Stmt{K: "for", N: n, V: v, Init: v + " = 0", Cond: fmt.Sprintf("%s < %d", v, n), Post: fmt.Sprintf("%s = %s + 1", v, v), Body: body}
 	default:
 		// for-in over a list, a map or a string: the body never looks at the loop variable, so the
@@ -405,6 +413,10 @@ func (m *model) stmt(f *mframe, s *plgen.Stmt) bool {
 			// value of the variable as this script sees it; unset variable reads the point key of that name (none) -> nil
 			x, _ := f.lookup(s.Arg2)
 			m.fields[s.V], m.hasKey[s.V] = x, true
+		case "incv":
+			if x, _ := f.lookup(s.V); x != nil {
+				f.assign(s.V, i64(*x+1))
+			}
 		case "acc":
 			m.trace = append(m.trace, obsRec{f.name, "", "1"})
 		case "accj":
@@ -501,6 +513,7 @@ func (m *model) stmt(f *mframe, s *plgen.Stmt) bool {
 		f.push()
 		defer f.pop()
 		f.assign(s.V, i64(0))
+		iters := 0
 		for {
 			x, _ := f.lookup(s.V)
 			if x == nil || *x >= s.N {
@@ -514,6 +527,14 @@ func (m *model) stmt(f *mframe, s *plgen.Stmt) bool {
 			}
 			if m.endIter(f) {
 				break
+			}
+			if s.Op == "postobs" {
+				m.trace = append(m.trace, obsRec{f.name, "", s.Arg2})
+				if iters++; iters > 100000 {
+					m.over = true // (a shrinking candidate without the counter statement: no verdict)
+					break
+				}
+				continue
 			}
 			x, _ = f.lookup(s.V)
 			f.assign(s.V, i64(*x+1))
